@@ -5,6 +5,11 @@ mod json;
 mod cfg;
 mod touch;
 mod props;
+mod props2;
+#[allow(dead_code, unused_imports)]
+#[path = "/repo/tests/custom_packet.rs"]
+mod custom;
+mod refdec;
 mod gen;
 
 use json::J;
